@@ -53,17 +53,24 @@ func (s vc19MetricsScraper) ScrapeMetrics(context.Context) (pmetric.Metrics, err
 }
 
 type vc19Sink struct {
-	err error
-	got *int
+	err   error
+	got   *int
+	takes bool // a consumer that takes ownership: it moves the data out of the payload it was given
 }
 
-func (s vc19Sink) Capabilities() consumer.Capabilities { return consumer.Capabilities{} }
+func (s vc19Sink) Capabilities() consumer.Capabilities { return consumer.Capabilities{MutatesData: s.takes} }
 func (s vc19Sink) ConsumeLogs(_ context.Context, ld plog.Logs) error {
 	*s.got += ld.LogRecordCount()
+	if s.takes {
+		ld.ResourceLogs().MoveAndAppendTo(plog.NewLogs().ResourceLogs())
+	}
 	return s.err
 }
 func (s vc19Sink) ConsumeMetrics(_ context.Context, md pmetric.Metrics) error {
 	*s.got += md.DataPointCount()
+	if s.takes {
+		md.ResourceMetrics().MoveAndAppendTo(pmetric.NewMetrics().ResourceMetrics())
+	}
 	return s.err
 }
 
@@ -99,7 +106,7 @@ func VerifC19ScrapeLogs() {
 	}
 	got := 0
 	c := &controller[scraper.Logs]{obsrecv: vc19Obsrecv(led), scrapers: scs}
-	scrapeLogs(c, vc19Sink{err: derr, got: &got})
+	scrapeLogs(c, vc19Sink{err: derr, got: &got, takes: vChoice("consumer-takes-ownership", 2) == 1})
 	vAssert(got == want, "scrape-logs/consumer-offered-the-records-of-every-usable-scrape")
 	acc, ref := led.sum["otelcol_receiver_accepted_log_records"], led.sum["otelcol_receiver_refused_log_records"]
 	vReach("scraped")
@@ -132,7 +139,7 @@ func VerifC19ScrapeMetrics() {
 	}
 	got := 0
 	c := &controller[scraper.Metrics]{obsrecv: vc19Obsrecv(led), scrapers: scs}
-	scrapeMetrics(c, vc19Sink{err: derr, got: &got})
+	scrapeMetrics(c, vc19Sink{err: derr, got: &got, takes: vChoice("consumer-takes-ownership", 2) == 1})
 	vAssert(got == want, "scrape-metrics/consumer-offered-the-points-of-every-usable-scrape")
 	acc, ref := led.sum["otelcol_receiver_accepted_metric_points"], led.sum["otelcol_receiver_refused_metric_points"]
 	vAssert(acc+ref == int64(want), "scrape-metrics/accepted-plus-refused-on-metric-counters-equals-points-scraped")
